@@ -72,6 +72,10 @@ class Prop:
                     op["via_none"] = True      # parent = None on the way to the next delegate
             elif x < 0.72:
                 op = r.choice([{"k": "swap_mid", "mid": r.randrange(nmid)},
+                               # a NEW middle object whose own link is still None when it
+                               # becomes the child's (the chain is completed afterwards)
+                               {"k": "swap_mid", "mid": r.randrange(nmid), "fresh": True,
+                                "cand": r.randrange(ncand)},
                                {"k": "swap_inner", "mid": r.randrange(nmid),
                                 "cand": r.randrange(ncand)}])
             elif x < 0.80:
@@ -282,6 +286,19 @@ class Prop:
                     if e is not None:
                         raise Violation("C11.assign-raised", "swapping the delegate raised %r" % (e,), i)
                     m.parent = j
+                elif k == "swap_mid" and op.get("fresh") and not cfg.get("proto_only"):
+                    kk = op["mid"] % 2
+                    j = cand(op["cand"])
+                    mids[kk] = Mid(uid=kk)            # (its 'inner' is None)
+                    m.mids[kk] = {"inner": j, "local_my": UNSET}
+                    _, e = sut(setattr, child, "mid", mids[kk])
+                    if e is None:
+                        _, e = sut(setattr, mids[kk], "inner", cands[j])
+                    if e is not None:
+                        raise Violation("C11.assign-raised", "a new middle object, completed "
+                                        "after it was linked, raised %r" % (e,), i)
+                    m.mid = kk
+                    env.probe("chain-completed-after-linking")
                 elif k == "swap_mid":
                     kk = op["mid"] % 2
                     _, e = sut(setattr, child, "mid", mids[kk])
